@@ -206,8 +206,9 @@ Definition arity_partial_shape : N := 1%N.
 Definition arity_trampoline_shape : N := 1%N.
 Definition arity_analyzer_rule : N := 1%N.
 Definition future_deref_mode : N := 1%N.
-(* C08, after the repairs F-08a/b/c: 1 = a - n kept for a >= n; a final nil of a variadic recur is
-   dropped; the recur point of each arity carries that arity's own is_variadic flag *)
-Definition arity_partial_cmp : N := 1%N.
+(* C08: partial keeps a - n for a > n and adds 0 only to an empty set (0; open finding F-08c); after the
+   repairs F-08a/b a final nil of a variadic recur is dropped (1) and the recur point of each arity
+   carries that arity's own is_variadic flag (1) *)
+Definition arity_partial_cmp : N := 0%N.
 Definition arity_tramp_nil : N := 1%N.
 Definition arity_recur_flag : N := 1%N.
